@@ -122,14 +122,14 @@ void dispatch(const Desc& d)
             typedef SparseGenRealShiftSolve<T> In;
             typedef GenEigsRealShiftSolver<CountOp<In> > Solver;
             run_with<T, Solver, In>(d, cx, [&]() { In* in = new In(As); if (d.has("presig")) in->set_shift((T) d.f("presig")); return in; }, [&](CountOp<In>& op) { T sigvar = sigma; Solver* s = new Solver(op, nev, ncv, sigvar); sigvar = sigma + T(977); return s; },
-                                    [&](In& in) { in.set_shift((T) d.f("resig", 0.21L)); in.set_shift(sigma); });
+                                    [&](In& in) { try { in.set_shift((T) d.f("resig", 0.21L)); } catch (const std::exception&) {} in.set_shift(sigma); });
         }
         else
         {
             typedef DenseGenRealShiftSolve<T> In;
             typedef GenEigsRealShiftSolver<CountOp<In> > Solver;
             run_with<T, Solver, In>(d, cx, [&]() { In* in = new In(A); if (d.has("presig")) in->set_shift((T) d.f("presig")); return in; }, [&](CountOp<In>& op) { T sigvar = sigma; Solver* s = new Solver(op, nev, ncv, sigvar); sigvar = sigma + T(977); return s; },
-                                    [&](In& in) { in.set_shift((T) d.f("resig", 0.21L)); in.set_shift(sigma); });
+                                    [&](In& in) { try { in.set_shift((T) d.f("resig", 0.21L)); } catch (const std::exception&) {} in.set_shift(sigma); });
         }
     }
     else if (cls == "gencs")
@@ -150,14 +150,14 @@ void dispatch(const Desc& d)
             typedef SparseGenComplexShiftSolve<T> In;
             typedef GenEigsComplexShiftSolver<CountOp<In> > Solver;
             run_with<T, Solver, In>(d, cx, [&]() { In* in = new In(As); if (d.has("presig")) in->set_shift((T) d.f("presig"), (T) d.f("presigi", 1.0L)); return in; }, [&](CountOp<In>& op) { T srv = sr, siv = si; Solver* s = new Solver(op, nev, ncv, srv, siv); srv = sr + T(977); siv = si + T(31); return s; },
-                                    [&](In& in) { in.set_shift((T) d.f("resig", 0.21L), (T) d.f("resigi", 0.6L)); in.set_shift(sr, si); });
+                                    [&](In& in) { try { in.set_shift((T) d.f("resig", 0.21L), (T) d.f("resigi", 0.6L)); } catch (const std::exception&) {} in.set_shift(sr, si); });
         }
         else
         {
             typedef DenseGenComplexShiftSolve<T> In;
             typedef GenEigsComplexShiftSolver<CountOp<In> > Solver;
             run_with<T, Solver, In>(d, cx, [&]() { In* in = new In(A); if (d.has("presig")) in->set_shift((T) d.f("presig"), (T) d.f("presigi", 1.0L)); return in; }, [&](CountOp<In>& op) { T srv = sr, siv = si; Solver* s = new Solver(op, nev, ncv, srv, siv); srv = sr + T(977); siv = si + T(31); return s; },
-                                    [&](In& in) { in.set_shift((T) d.f("resig", 0.21L), (T) d.f("resigi", 0.6L)); in.set_shift(sr, si); });
+                                    [&](In& in) { try { in.set_shift((T) d.f("resig", 0.21L), (T) d.f("resigi", 0.6L)); } catch (const std::exception&) {} in.set_shift(sr, si); });
         }
     }
     else
